@@ -282,7 +282,7 @@ namespace fastscapelib
             {
                 using neighbors_type = typename graph_impl_type::grid_type::neighbors_type;
 
-                double slope;
+                double drop, drop_max, slope_max;
                 double weight, weights_sum;
                 neighbors_type neighbors;
                 size_type nrec;
@@ -310,20 +310,23 @@ namespace fastscapelib
 
                     nrec = 0;
                     weights_sum = 0;
+                    drop_max = 0;
+                    slope_max = 0;
 
                     for (auto n : grid.neighbors(i, neighbors))
                     {
                         if (!graph_impl.is_masked(n.idx)
                             && elevation.flat(i) > elevation.flat(n.idx))
                         {
-                            slope = (elevation.flat(i) - elevation.flat(n.idx)) / n.distance;
+                            drop = elevation.flat(i) - elevation.flat(n.idx);
 
                             receivers(i, nrec) = n.idx;
                             dist2receivers(i, nrec) = n.distance;
 
-                            weight = std::pow(slope, this->m_op_ptr->m_slope_exp);
-                            weights_sum += weight;
-                            receivers_weight(i, nrec) = weight;
+                            // temporarily store the elevation drop (weights are
+                            // computed below from normalized slopes)
+                            receivers_weight(i, nrec) = drop;
+                            drop_max = std::max(drop_max, drop);
 
                             // update donors (note: not thread safe if later parallelization)
                             donors(n.idx, donors_count(n.idx)++) = i;
@@ -342,6 +345,23 @@ namespace fastscapelib
                     }
 
                     receivers_count(i) = nrec;
+
+                    // compute weights from slopes relative to the steepest slope so
+                    // that the power function neither underflows nor overflows
+                    // (the steepest receiver always gets a relative slope of one)
+                    for (size_type j = 0; j < nrec; j++)
+                    {
+                        receivers_weight(i, j)
+                            = (receivers_weight(i, j) / drop_max) / dist2receivers(i, j);
+                        slope_max = std::max(slope_max, receivers_weight(i, j));
+                    }
+                    for (size_type j = 0; j < nrec; j++)
+                    {
+                        weight = std::pow(receivers_weight(i, j) / slope_max,
+                                          this->m_op_ptr->m_slope_exp);
+                        weights_sum += weight;
+                        receivers_weight(i, j) = weight;
+                    }
 
                     // normalize weights
                     for (size_type j = 0; j < nrec; j++)
